@@ -30,11 +30,15 @@
   spec_restart_witness
   inline_eq_runtime_illformed_partial
   inline_seq_illformed_partial
+  failed_prepare_keeps_cache_sound
+  inline_real_seq_eq_runtime_partial
+  seq_same_termination
 -/
 import Genshi.Lemmas.InclErase
 import Genshi.Lemmas.InclSpec
 import Genshi.Lemmas.InclGuard
 import Genshi.Lemmas.InclIllSim
+import Genshi.Lemmas.InclSeq
 import Genshi.Gen.Incl
 namespace Genshi.Props.C11
 open Genshi.Incl
@@ -523,6 +527,115 @@ theorem marker_free_same_results (files : Files) (entry : Name) (kind : Kind) (d
         rw [render_succ] at this
         rw [this, ← mapE_map_fst, hm]; exact h
 
+/-! ## sequences of requests in the code's own inline mode (no markers) -/
+
+/-- the loader after a failed request, marker-free mode (the cache holds the same prepared streams in both
+inline modes; the markers are erased when a stream is taken out) -/
+theorem failed_render_keeps_cache_soundU {T : List Name} {files : Files} (hH : inHW T files = true) (fuel : Nat)
+    (c : Cache) (hc : CacheInv T files c) (q : Req) :
+    CacheInv T files (cacheAfterFail .inlineU files fuel c q) := by
+  obtain ⟨entry, kind, data⟩ := q
+  have hl := loadInl_cache_inv hH entry kind c hc
+  simp only [cacheAfterFail, loadT]
+  cases hx : loadInl files entry kind c with
+  | fuel => rw [hx] at hl; simpa using hl
+  | err e => rw [hx] at hl; simpa using hl
+  | ok r =>
+    rw [hx] at hl
+    simp only [Res.map_ok]
+    exact replayLoads_invW hH _ r.2 hl
+
+/-- what the preparation left in the loader when a load raised (full: every file set in `inHW`), and its
+agreement with the load where the load returns (every file set) -/
+theorem failed_prepare_keeps_cache_sound {T : List Name} {files : Files} (hH : inHW T files = true)
+    (name : Name) (cls : Kind) (c : Cache) (hc : CacheInv T files c) :
+    CacheInv T files (loadInlC files name cls c) ∧
+    (∀ r, loadInl files name cls c = .ok r → loadInlC files name cls c = r.2) := by
+  refine ⟨?_, loadInlC_agree files name cls c⟩
+  have h := loadInl_cache_inv hH name cls c hc
+  cases hx : loadInl files name cls c with
+  | fuel => rw [hx] at h; exact h
+  | err e => rw [hx] at h; exact h
+  | ok r => rw [hx] at h; rw [loadInlC_agree files name cls c r hx]; exact h
+
+theorem renderOnF_eqU {T : List Name} {files : Files} (hH : inH T files = true) (fuel : Nat)
+    (c : Cache) (hc : CacheInv T files c) (q : Req) (hno : (renderOn .runtime files fuel [] q).1 ≠ .fuel) :
+    (renderOnF .inlineU files fuel c q).1 = (renderOn .runtime files fuel [] q).1 ∧
+    CacheInv T files (renderOnF .inlineU files fuel c q).2 := by
+  have h := renderOn_eq hH fuel c hc q
+  have hu := renderOn_U_of_M files fuel c q (by rw [h.1]; exact hno)
+  have hf := failed_render_keeps_cache_soundU (inHW_of_inH hH) fuel c hc q
+  refine ⟨by rw [renderOnF_fst, hu, h.1], ?_⟩
+  unfold renderOnF
+  cases hx : (renderOn .inlineU files fuel c q).1 with
+  | ok evs => simp only; rw [hu]; exact h.2
+  | err e => exact hf
+  | fuel => exact hf
+
+/-
+  Full statement (false, see the witnesses): for every file set …  Proved under `inH`.
+-/
+/-- **sequences in the code's own inline mode.**  Any number of requests through one loader, failed ones
+included, prepared streams without cost markers (`Mode.inlineU`, what `gdrv` runs against the real loader):
+whenever run-time mode answers the whole sequence within the fuel, inline mode gives the same answers with the
+same fuel (it needs less stack: inlined templates are entered for free) -/
+theorem inline_real_seq_eq_runtime_partial (T : List Name) (files : Files) (hH : inH T files = true)
+    (fuel : Nat) (qs : List Req) (hno : ∀ r ∈ renderSeq .runtime files fuel [] qs, r ≠ .fuel) :
+    (renderSeqF .inlineU files fuel [] qs).map (·.1) = renderSeq .runtime files fuel [] qs := by
+  have key : ∀ (qs : List Req) (c : Cache), CacheInv T files c →
+      (∀ r ∈ renderSeq .runtime files fuel [] qs, r ≠ .fuel) →
+      (renderSeqF .inlineU files fuel c qs).map (·.1) = renderSeq .runtime files fuel [] qs := by
+    intro qs
+    induction qs with
+    | nil => intro c _ _; rfl
+    | cons q qs ih =>
+      intro c hc hno
+      simp only [renderSeq, List.mem_cons, forall_eq_or_imp] at hno
+      rw [renderOn_runtime_cache] at hno
+      have h := renderOnF_eqU hH fuel c hc q hno.1
+      simp only [renderSeqF, renderSeq, List.map_cons]
+      rw [h.1, ih _ h.2 hno.2, renderOn_runtime_cache]
+  exact key qs [] (by intro n b h; simp at h) hno
+
+/-- **the same conditions of termination, for sequences**: a list of answers none of which is "out of fuel" is
+what the code's inline mode gives for the sequence with some fuel iff it is what run-time mode gives with some
+fuel (recursive and mutually recursive includes, failed requests in the sequence, the loader's state carried
+along) -/
+theorem seq_same_termination (T : List Name) (files : Files) (hH : inH T files = true)
+    (qs : List Req) (rs : List (Res (List Ev))) (hrs : ∀ r ∈ rs, r ≠ .fuel) :
+    (∃ f, (renderSeqF .inlineU files f [] qs).map (·.1) = rs) ↔ (∃ f, renderSeq .runtime files f [] qs = rs) := by
+  constructor
+  · rintro ⟨f, hf⟩
+    have key : ∀ (qs : List Req) (c : Cache), CacheInv T files c →
+        (∀ r ∈ (renderSeqF .inlineU files f c qs).map (·.1), r ≠ .fuel) →
+        ∃ g0, ∀ g, g0 ≤ g → renderSeq .runtime files g [] qs = (renderSeqF .inlineU files f c qs).map (·.1) := by
+      intro qs
+      induction qs with
+      | nil => intro c _ _; exact ⟨0, fun _ _ => rfl⟩
+      | cons q qs ih =>
+        intro c hc hno
+        simp only [renderSeqF, List.map_cons, List.mem_cons, forall_eq_or_imp] at hno
+        have hq : (renderOn .inlineU files f c q).1 ≠ .fuel := by rw [← renderOnF_fst]; exact hno.1
+        obtain ⟨g1, hg1⟩ := renderOn_M_of_U files f c q hq
+        -- the loader after this request is sound
+        have hc' : CacheInv T files (renderOnF .inlineU files f c q).2 := by
+          unfold renderOnF
+          cases hx : (renderOn .inlineU files f c q).1 with
+          | ok evs =>
+            simp only
+            rw [← hg1 g1 (Nat.le_refl _)]
+            exact (renderOn_eq hH g1 c hc q).2
+          | err e => exact failed_render_keeps_cache_soundU (inHW_of_inH hH) f c hc q
+          | fuel => exact failed_render_keeps_cache_soundU (inHW_of_inH hH) f c hc q
+        obtain ⟨g2, hg2⟩ := ih _ hc' hno.2
+        refine ⟨max g1 g2, fun g hg => ?_⟩
+        simp only [renderSeq, renderSeqF, List.map_cons]
+        rw [renderOn_runtime_cache, hg2 g (by omega), ← (renderOn_eq hH g c hc q).1, hg1 g (by omega), renderOnF_fst]
+    obtain ⟨g0, hg0⟩ := key qs [] (by intro n b h; simp at h) (by rw [hf]; exact hrs)
+    exact ⟨g0, by rw [hg0 g0 (Nat.le_refl _), hf]⟩
+  · rintro ⟨f, hf⟩
+    exact ⟨f, by rw [inline_real_seq_eq_runtime_partial T files hH f qs (by rw [hf]; exact hrs), hf]⟩
+
 /-
   The statement about the code as it is (no markers).  Full statement (false, same witnesses):
     ∀ files entry kind data r, r ≠ .fuel → ((∃ f, renderInlineReal … f = r) ↔ (∃ f, renderRuntime … f = r))
@@ -738,6 +851,16 @@ example : (renderSeqF .inlineM exFail 6 [] exFailReqs).map (fun x => (x.1, x.2.m
      (.ok [.start ['d'], .start ['e'], .text ['C'], .stop ['e'], .text ['!'], .stop ['d']],
       [nB, ['c', '.', 'h', 't', 'm', 'l'], nA])] := by decide +kernel
 example : (renderOn .inlineM exFail 6 [] (nA, .markup, [(['h', '0'], .str nB)])).2 = [] := by decide +kernel
+
+/-- non-vacuity of `inline_real_seq_eq_runtime_partial` / `seq_same_termination`: the sequence with a failed
+request in the marker-free mode; no answer is "out of fuel" at fuel 6.  At fuel 2 run-time mode gives up on
+`exFiles` where the marker-free inline mode answers: the hypothesis `hno` is needed, and the two directions of
+`seq_same_termination` may need different fuel. -/
+example : (renderSeqF .inlineU exFail 6 [] exFailReqs).map (·.1) = renderSeq .runtime exFail 6 [] exFailReqs ∧
+    (renderSeq .runtime exFail 6 [] exFailReqs).all (· != .fuel) = true ∧
+    renderSeq .runtime exFiles 2 [] [(nA, .markup, exData)] = [.fuel] ∧
+    (renderSeqF .inlineU exFiles 2 [] [(nA, .markup, exData)]).map (·.1) = renderSeq .runtime exFiles 9 [] [(nA, .markup, exData)] := by
+  decide +kernel
 
 def nC : Name := ['c', '.', 'h', 't', 'm', 'l']
 /-- `a.html` = `<d><xi:include href="${h0}"/></d>`, `b.html` = `<e>B</e>`,
